@@ -143,7 +143,7 @@ def run(prop: str, seed: int = 0, base_idents: Optional[List[str]] = None) -> Di
         base_idents = [f.ident() for f in ctx.findings()]
     variants.append(Variant(RENAME_TWIN, "twin", []))
     variants.append(Variant(PRIVATE_TWIN, "twin", []))
-    for name in ("swap", "early", "rettemp", "logging", "condtemp", "nest", "continue", "params2", "ternary", "typing", "strconst", "clsconst", "walrus"):
+    for name in ("swap", "early", "rettemp", "logging", "condtemp", "nest", "continue", "params2", "ternary", "typing", "strconst", "clsconst", "walrus", "kwargs"):
         variants.append(Variant(AUTO_TWIN_PREFIX + name, "twin", []))
     jobs = [(prop, variant, base_idents) for variant in variants]
     results: List[Dict[str, Any]] = []
